@@ -8,7 +8,16 @@
    with the operations [ops] (each with the scripted outcomes of its FileSys calls)
    not yet begun; an operation that "starts later" is one that is scheduled later, so
    the reachable states [run sched (init reqauth ops)] cover every finite concurrent
-   history, every thread count and every FileSys behaviour. *)
+   history, every thread count and every FileSys behaviour.
+
+   [ops] may contain [OpStop], the server's Stop (since /repo e9fb232 it takes each SFid's lock): every
+   theorem below that quantifies over [ops] or over [o] therefore holds with Stop running concurrently with
+   the client's operations - balance, discipline, mutual exclusion per SFid, no lock after return, progress,
+   completion.  Stop's loop carries fuel in the model (64 keys looked at over all passes; beyond that it
+   returns the class R_FUEL, never seen by the harness); the order in which sync.Map.Range visits the keys
+   and its treatment of re-stored keys are environment choices quantified like FileSys outcomes (the
+   structural theorems hold for every answer of the Snapshot action).  Linearizability statements are about
+   client operations only: [lin_check] is not applied to histories containing Stop. *)
 From stdpp Require Import gmap.
 From Coq Require Import List NArith.
 From P9 Require Import Model.SessLock Proofs.SessLockProofs Proofs.SessLockProofsLin Proofs.SessLockProofsScopes Proofs.SessLockProofsTie.
@@ -95,8 +104,9 @@ Theorem C14_completion : forall reqauth ops sched,
 Proof. exact completion. Qed.
 Print Assumptions C14_completion.
 
-(* ... and no schedule, however unfair, takes more than 2*16+1 effective steps per operation: an operation
-   that keeps being scheduled while it can move returns *)
+(* ... and no schedule, however unfair, takes more than 2*DEPTH+1 effective steps per operation (a client
+   operation has at most 16 actions on any path; DEPTH = 577 covers Stop with its fuel of 64 keys): an
+   operation that keeps being scheduled while it can move returns *)
 Theorem C14_bounded_work : forall reqauth ops sched,
   (effective sched (init reqauth ops) <= (2 * DEPTH + 1) * length ops)%nat.
 Proof. intros. apply effective_bound, total_init. Qed.
